@@ -1,6 +1,6 @@
 (* Properties_C10.v — property C10: nearest-neighbour structures answer like exhaustive search.  Statements only. *)
 From Coq Require Import List ZArith Bool Arith Permutation Sorted.
-From OmplV Require Import NNModel NNProofs.
+From OmplV Require Import NNModel NNProofs GnatModel GnatProofs.
 Import ListNotations.
 Local Open Scope Z_scope.
 
@@ -63,6 +63,41 @@ Section C10.
     (forall u, In u U -> forall v, In v (nearestK P d q k V) -> d v q < d u q) ->
     forall x y, In x (nearestK P d q k V) -> In y (skipn k (sort_by P d q V) ++ U) -> d x q <= d y q.
   Proof. exact (examined_suffices P d). Qed.
+
+  (* ---- the GNAT search loops themselves (GnatModel.v: Node::nearestK / nearestR, nearestKInternal / nearestRInternal),
+     on every tree satisfying the executable invariant, for every removal cache, every sequence of offset_ values seen
+     by the node visits and every order in which the node queue yields its entries: the search returns, and returns
+     exactly what exhaustive search over the live elements returns ---- *)
+  Theorem C10_gnat_nearestR_exact : forall removed offs pick r q tree,
+    inv_ok_root P d tree = true ->
+    exists nbh piv, gnat_nearestR P d removed offs pick r q tree = Some (nbh, piv) /\
+      Permutation (map snd nbh) (filter (fun x => d q x <=? r) (lelems P removed tree)) /\
+      StronglySorted (nle P) nbh /\ dists_ok P d q nbh.
+  Proof.
+    intros removed offs pick r q tree IR.
+    destruct (gnat_nearestR P d removed offs pick r q tree) as [[nbh piv]|] eqn:G.
+    - exists nbh, piv. split; [reflexivity|]. exact (gnat_nearestR_spec P d peqb d_sym d_tri removed offs pick r q tree nbh piv IR G).
+    - exfalso. exact (gnat_nearestR_total P d removed offs pick r q tree G).
+  Qed.
+  Hypothesis d_nonneg : forall x y, 0 <= d x y.
+  Theorem C10_gnat_nearestK_exact : forall removed offs pick k q tree, (1 <= k)%nat ->
+    inv_ok_root P d tree = true ->
+    exists nbh piv, gnat_nearestK P d peqb removed offs pick k q tree = Some (nbh, piv) /\
+      StronglySorted (nle P) nbh /\ dists_ok P d q nbh /\ length nbh = Nat.min k (length (lelems P removed tree)) /\
+      exists rest, Permutation (lelems P removed tree) (map snd nbh ++ rest) /\
+                   forall x y, In x (map snd nbh) -> In y rest -> d q x <= d q y.
+  Proof.
+    intros removed offs pick k q tree Hk IR.
+    destruct (gnat_nearestK P d peqb removed offs pick k q tree) as [[nbh piv]|] eqn:G.
+    - exists nbh, piv. split; [reflexivity|]. exact (gnat_nearestK_spec P d peqb d_sym d_tri removed offs pick k Hk d_nonneg q tree nbh piv IR G).
+    - exfalso. exact (gnat_nearestK_total P d peqb removed offs pick k q tree G).
+  Qed.
+  (* the live elements are the tree's elements minus the removal cache, as long as no pivot is in the cache
+     (remove() rebuilds the tree at once when the removed element is a pivot) *)
+  Theorem C10_gnat_live_elements : forall removed tree,
+    (forall p, In p (pivots P tree) -> removed p = false) ->
+    lelems P removed tree = filter (fun x => negb (removed x)) (elems P tree).
+  Proof. exact (lelems_filter P). Qed.
 End C10.
 
 Print Assumptions C10_nearestK_exact.
@@ -74,6 +109,9 @@ Print Assumptions C10_gnat_prune_by_range_sound.
 Print Assumptions C10_gnat_prune_by_radius_sound.
 Print Assumptions C10_gnat_invariant_meaning.
 Print Assumptions C10_examined_suffices.
+Print Assumptions C10_gnat_nearestR_exact.
+Print Assumptions C10_gnat_nearestK_exact.
+Print Assumptions C10_gnat_live_elements.
 
 (* non-vacuity: L1 metric on Z^2 *)
 Definition l1 (a b : Z * Z) : Z := Z.abs (fst a - fst b) + Z.abs (snd a - snd b).
@@ -85,3 +123,18 @@ Example C10_nonvacuous :
               GNode (9,9) (Some 0) (Some 0) [(Some 14, Some 17); (Some 0, Some 0); (Some 8, Some 10)] [] [];
               GNode (5,5) (Some 0) (Some 2) [(Some 6, Some 9); (Some 8, Some 8); (Some 0, Some 2)] [(5,5); (4,4)] []]) = true.
 Proof. vm_compute. split; reflexivity. Qed.
+
+(* non-vacuity for the search loops: the tree above with (3,1) in the removal cache; query (4,3) *)
+Definition peq2 (a b : Z * Z) : bool := (fst a =? fst b) && (snd a =? snd b).
+Example C10_gnat_search_nonvacuous :
+  let tree := GNode (0,0) None None []
+          [] [GNode (1,0) (Some 3) (Some 3) [(Some 0, Some 3); (Some 17, Some 17); (Some 7, Some 9)] [(2,2); (3,1)] [];
+              GNode (9,9) (Some 0) (Some 0) [(Some 14, Some 17); (Some 0, Some 0); (Some 8, Some 10)] [] [];
+              GNode (5,5) (Some 0) (Some 2) [(Some 6, Some 9); (Some 8, Some 8); (Some 0, Some 2)] [(5,5); (4,4)] []] in
+  let rem := fun x => peq2 x (3,1) in
+  option_map (fun r => map fst (fst r)) (gnat_nearestK _ l1 peq2 rem (fun n => n) (fun _ => 1%nat) 3 (4,3) tree) = Some [1; 3; 3]
+  /\ option_map fst (gnat_nearestR _ l1 rem (fun n => (2 * n)%nat) (fun _ => 0%nat) 3 (4,3) tree)
+     = Some [(1, (4,4)); (3, (5,5)); (3, (2,2)); (3, (5,5))]
+  /\ option_map fst (gnat_nearestR _ l1 (fun _ => false) (fun n => (2 * n)%nat) (fun _ => 0%nat) 3 (4,3) tree)
+     = Some [(1, (4,4)); (3, (5,5)); (3, (2,2)); (3, (3,1)); (3, (5,5))].
+Proof. vm_compute. repeat split; reflexivity. Qed.
